@@ -972,6 +972,12 @@ class Node(object):
         """
         if type(node) == str:
             node = self.ownerDocument.createTextNode(node)
+        # Resolve the index the way a list does, before anything is changed
+        if not(isinstance(i, slice)):
+            if i < 0:
+                i += len(self)
+            if i < 0 or i >= len(self):
+                raise IndexError('list assignment index out of range')
         # If a DocumentFragment is being inserted, but it isn't replacing
         # a slice, we need to put each child in manually.
         if node.nodeType == Node.DOCUMENT_FRAGMENT_NODE \
